@@ -675,6 +675,8 @@ impl TreeStreamerOnce {
                         .send(Tree::from_backend(&be, &index, id).map(|tree| (path, tree, count)))
                         .unwrap();
                 }
+                #[cfg(feature = "verif")]
+                crate::verif::point::hit("tree_loader.exit");
             });
         }
 
